@@ -233,6 +233,9 @@ def run(F, rep):
     # ------------------------------------------------------------ PAIR: parallel per-pack vectors move together
     pair_rule(F, rep, live)
 
+    # ------------------------------------------------------------ SPLIT: a segment cut in two overlaps by exactly k
+    split_rule(F, rep, live)
+
     # ------------------------------------------------------------ ID / ALPHA (shared rules)
     from rules import c02, c09
     sub = Report(rep.pid, rep.tier)
@@ -293,3 +296,127 @@ def pair_rule(F, rep, live):
             rep.ob("C01-PAIR", "%s: %s and %s are %s together" % (k.split("::", 1)[-1], A_, B_, "extended" if kind == "grow" else "reset"), ok, detail=why,
                    site=site_of(f, (xs or ys)[0][1]) if (xs or ys) else "%s:%d" % (f.file, f.line_lo), key="C01-PAIR | %s | %s" % (k, kind))
     rep.floor("C01-PAIR", nfun, 2, "bodies that maintain the per-pack delta / id vectors")
+
+
+class _NotLinear(Exception):
+    pass
+
+
+def _lin(e, env):
+    """linear form {atom: coeff, None: const} of an index expression, *unclamped*: saturating/wrapping arithmetic is
+    plain arithmetic and min(x, len(..)) is x (the cut lies inside the segment).  Parameters in env are numbers."""
+    e = strip_tags(e)
+    if isinstance(e, tuple):
+        if e[0] == "const" and isinstance(e[1], int):
+            return {None: e[1]}
+        if e[0] == "param" and e[1] in env:
+            return {None: env[e[1]]}
+        if e[0] == "bin" and e[1] in ("Add", "Sub"):
+            a, b = _lin(e[2], env), _lin(e[3], env)
+            sg = 1 if e[1] == "Add" else -1
+            out = dict(a)
+            for k, v in b.items():
+                out[k] = out.get(k, 0) + sg * v
+            return out
+        if e[0] == "bin" and e[1] in ("Mul", "Div", "Rem", "Shr", "Shl"):
+            a, b = _lin(e[2], env), _lin(e[3], env)
+            ca = a.get(None, 0) if set(a) <= {None} else None
+            cb = b.get(None, 0) if set(b) <= {None} else None
+            if e[1] == "Mul" and (ca is not None or cb is not None):
+                c, o = (ca, b) if ca is not None else (cb, a)
+                return {k: v * c for k, v in o.items()}
+            if ca is not None and cb is not None:
+                if e[1] == "Div" and cb != 0:
+                    return {None: ca // cb}
+                if e[1] == "Rem" and cb != 0:
+                    return {None: ca % cb}
+                if e[1] == "Shr":
+                    return {None: ca >> cb}
+                if e[1] == "Shl":
+                    return {None: ca << cb}
+            raise _NotLinear(fmt(e))
+        if e[0] == "call":
+            c, args = e[1], e[2]
+            if re.search(r"::(saturating_sub|wrapping_sub|checked_sub)$", c) and len(args) == 2:
+                return _lin(("bin", "Sub", args[0], args[1]), env)
+            if re.search(r"::(saturating_add|wrapping_add|checked_add)$", c) and len(args) == 2:
+                return _lin(("bin", "Add", args[0], args[1]), env)
+            if re.search(r"cmp::(Ord::)?min$", c) and len(args) == 2:
+                isl = [contains(a, lambda x: isinstance(x, tuple) and x[0] == "call" and x[1].endswith("::len")) and
+                       strip_tags(a)[0] == "call" and strip_tags(a)[1].endswith("::len") for a in args]
+                if isl[0] != isl[1]:
+                    return _lin(args[1] if isl[0] else args[0], env)
+                raise _NotLinear(fmt(e))
+            if re.search(r"Option::<T>::(unwrap|expect|unwrap_or)$", c) and args:
+                return _lin(args[0], env)
+    return {fmt(e): 1}
+
+
+def split_rule(F, rep, live):
+    """Bodies that cut one segment into a left and a right copy (return (Vec<u8>, Vec<u8>) built from data[..E] and
+    data[S..] of the same slice): the reader drops exactly k leading bases of every non-first segment, so the two
+    parts must share exactly k bases: E - S = k for every k in 1..=32 wherever the cut lies inside the segment
+    (saturation / clamping to the segment's ends aside), k being the parameter that the callers fill with config.k."""
+    n = 0
+    for key in sorted(live):
+        f = F.funcs[key]
+        if f.crate != "ragc_core" or f.kind != "fn" or not re.fullmatch(r"\(alloc::vec::Vec<u8>, alloc::vec::Vec<u8>\)", f.locals[0]["ty"]):
+            continue
+        ex = Exprs(f)
+        S = E = None
+        base = set()
+        for bi, t in f.calls():
+            if t.get("indirect") or not t["callee"].endswith("for [T]>::index") or len(t.get("gargs", [])) < 2:
+                continue
+            rng = strip_tags(ex.operand(t["args"][1]))
+            b0 = strip_tags(ex.operand(t["args"][0]))
+            if not (isinstance(rng, tuple) and rng[0] == "agg"):
+                continue
+            flds = dict(rng[2])
+            if "RangeFrom" in rng[1] and "start" in flds:
+                S = flds["start"]
+                base.add(fmt(b0))
+            elif "RangeTo" in rng[1] and "end" in flds:
+                E = flds["end"]
+                base.add(fmt(b0))
+        if S is None or E is None or len(base) != 1:
+            continue
+        n += 1
+        names = f.arg_names()
+        cands = [names[i] for i in range(1, f.d["arg_count"] + 1) if f.locals[i]["ty"] == "usize" and i in names]
+        kname, fails = None, {}
+        for c in cands:
+            bad = None
+            for kv in range(1, 33):
+                try:
+                    d = _lin(("bin", "Sub", E, S), {c: kv})
+                except _NotLinear as x:
+                    bad = "k=%d: cannot evaluate %s" % (kv, x)
+                    break
+                d = {a: v for a, v in d.items() if v}
+                if d != {None: kv}:
+                    bad = "k=%d: left part ends at %s, right part starts at %s: they share %s bases" % (
+                        kv, fmt(strip_tags(E)), fmt(strip_tags(S)), " + ".join("%s*%s" % (v, a) if a else str(v) for a, v in sorted(d.items(), key=str)) or "0")
+                    break
+            if bad is None:
+                kname = c
+                break
+            fails[c] = bad
+        rep.ob("C01-SPLIT", "%s: the two parts of a cut segment overlap by exactly k bases for every k in 1..=32" % key.split("::", 1)[-1], kname is not None,
+               detail=("overlap = parameter `%s`" % kname) if kname else "; ".join("as k=`%s`: %s" % (c, w) for c, w in fails.items())[:600],
+               site="%s:%d" % (f.file, f.line_lo), key="C01-SPLIT | %s | overlap" % key)
+        if kname is None:
+            continue
+        pos = [i for i, nm in names.items() if nm == kname][0] - 1
+        for ck in sorted(live):
+            cf = F.funcs[ck]
+            cex = None
+            for bi, t in cf.calls():
+                if t.get("indirect") or t["callee"] != key:
+                    continue
+                cex = cex or Exprs(cf)
+                a = strip_tags(cex.operand(t["args"][pos]))
+                ok = isinstance(a, tuple) and a[0] == "field" and a[2] in ("k", "kmer_length")
+                rep.ob("C01-SPLIT", "%s passes the archive's k as the overlap of %s" % (ck.split("::", 1)[-1], key.rsplit("::", 1)[-1]), ok, detail=fmt(a),
+                       site=site_of(cf, t), key="C01-SPLIT | %s | k argument of %s" % (ck, key.rsplit("::", 1)[-1]))
+    rep.floor("C01-SPLIT", n, 1, "live bodies that cut a segment into two overlapping parts (split_segment_at_position)")
